@@ -90,3 +90,18 @@ package ipa
 //@ loop 1 invariant 0 <= i && i <= 8 && rpos(r) == p0 + 256 + 32*i && len(R) == i && avail(r, p0, 256 + 32*i) && (cap(R) == 0 || sinceloop(R)) && len(ip.L) == 8
 //@ loop 1 invariant okPoints8(r, p0)
 //@ loop 1 invariant okPrefix8(r, p0 + 256, i)
+
+//@ func IPAProof.Write
+//@ props C10
+//@ prelude field curve bytesint io
+//@ let c0 = wcalls(w)
+//@ let n0 = wlen(w)
+//@ let total = len(ip.L) + len(ip.R) + 1
+//@ requires wlen(w) >= 0 && obj(w) != obj(ip) && obj(w) != obj(ip.L) && obj(w) != obj(ip.R)
+//@ ensures (c0 <= wr_fail(w) && wr_fail(w) < c0 + total) ==> result != nil
+//@ ensures (wr_fail(w) < c0 || wr_fail(w) >= c0 + total) ==> result == nil && wcalls(w) == c0 + total && wlen(w) == n0 + 32 * total
+//@ modifies wcalls(w), wlen(w), wout(w, n0, n0 + 32 * total)
+//@ loop 0 invariant 0 - 1 <= rangeindex && rangeindex < len(ip.L) && wcalls(w) == c0 + rangeindex + 1 && wlen(w) == n0 + 32 * (rangeindex + 1) && !(c0 <= wr_fail(w) && wr_fail(w) < c0 + rangeindex + 1)
+//@ loop 0 invariant forall k int :: (0 <= k && k < n0) || k >= wlen(w) ==> wout(w, k) == old(wout(w, k))
+//@ loop 1 invariant forall k int :: (0 <= k && k < n0) || k >= wlen(w) ==> wout(w, k) == old(wout(w, k))
+//@ loop 1 invariant 0 - 1 <= rangeindex && rangeindex < len(ip.R) && wcalls(w) == c0 + len(ip.L) + rangeindex + 1 && wlen(w) == n0 + 32 * (len(ip.L) + rangeindex + 1) && !(c0 <= wr_fail(w) && wr_fail(w) < c0 + len(ip.L) + rangeindex + 1)
